@@ -14,7 +14,7 @@ from fractions import Fraction as Fr
 from lib.rat import R, F, close, dev
 
 ID = "C19"
-QUICK_N = 1500
+QUICK_N = 1300
 THOROUGH_N = 25000
 QUICK_BUDGET_S = 80
 THOROUGH_BUDGET_S = 900
@@ -763,7 +763,7 @@ def corpus():
 #   copy            : 0 the chart object itself, 1 a deepcopy of it (the session goes on with the original),
 #                     2 a deepcopy of it (the session goes on with the copy)
 #   edit            : what is done to the chart after the call, {op, on, via, ...}:
-#       shift   on=[lists]  by=d            offset += d                     via iprop | prop | iloc | setitem | loc | df | list | stack
+#       shift   on=[lists]  by=d            offset += d                     via iprop | prop | iloc | setitem | loc | df | list | stack | stackloc
 #       set     on=list col values          a whole column gets new values  via prop | iloc | setitem | loc | df | list | stack
 #       append  on=list rows                rows added                      via append | append_list | append_sort | concat
 #       trim    on=list side at             rows at or before / after `at`  via method | df | list
@@ -773,7 +773,7 @@ def corpus():
 
 LISTS = ("bpms", "svs", "hits", "holds")
 VCOL = dict(bpms="bpm", svs="multiplier", holds="length", hits=None)
-SET_VIA = ("prop", "iloc", "setitem", "loc", "df", "list", "stack")
+SET_VIA = ("prop", "iloc", "setitem", "loc", "df", "list", "stack", "stackloc")
 SHIFT_VIA = ("iprop",) + SET_VIA
 APPEND_VIA = ("append", "append_list", "append_sort", "concat")
 TRIM_VIA = ("method", "df", "list")
@@ -939,6 +939,9 @@ def _set_col(m, L, col, vals, via, parity=0):
     elif via == "stack":                               # through the Stacker restricted to this list's class
         s = m.stack((type(lst),))
         s[col] = list(vals)
+    elif via == "stackloc":                            # Stacker.loc (conditional indexer of the stacked frame)
+        s = m.stack((type(lst),))
+        s.loc[:, col] = list(vals)
     else:
         raise ValueError(via)
 
@@ -950,12 +953,15 @@ def apply_edit(m, game, ed):
     if op == "shift":
         d = fl(ed["by"])
         present = [L for L in LISTS if hasattr(m, L)]
-        if via == "stack":
+        if via in ("stack", "stackloc"):
             if sorted(ed["on"]) == sorted(present):
                 s = m.stack()
             else:
                 s = m.stack(tuple(type(getattr(m, L)) for L in ed["on"]))
-            s.offset += d
+            if via == "stack":
+                s.offset += d
+            else:
+                s.loc[s.offset == s.offset, "offset"] += d      # a condition that holds for every row
             return
         for L in ed["on"]:
             lst = getattr(m, L)
